@@ -50,6 +50,18 @@ type c04Reg struct {
 	fail      map[int]bool
 	onListed  func(n int)
 	reports   [][]c04Inst
+	skip      int // listings whose answer was already recorded as a report by the event itself
+}
+
+// report records what a FULL-REPLACE event of the driver says about the watched service: the
+// event itself is the report of service discovery (whether or not the controller then lists).
+func (r *c04Reg) report(xs []c04Inst) {
+	r.mu.Lock()
+	defer r.mu.Unlock()
+	rep := append([]c04Inst{}, xs...)
+	sort.Slice(rep, func(i, j int) bool { return rep[i].ID < rep[j].ID })
+	r.reports = append(r.reports, rep)
+	r.skip = 1
 }
 
 func (r *c04Reg) Name() string                                     { return c04RegName }
@@ -106,7 +118,11 @@ func (r *c04Reg) ListServiceInstances(serviceName string) (map[string]*servicere
 		}
 		sort.Slice(rep, func(i, j int) bool { return rep[i].ID < rep[j].ID })
 		if serviceName == "svc" {
-			r.reports = append(r.reports, rep)
+			if r.skip > 0 {
+				r.skip--
+			} else {
+				r.reports = append(r.reports, rep)
+			}
 		}
 	}
 	r.mu.Unlock()
@@ -355,9 +371,22 @@ func c04RunWatch(t *testing.T, in c04WatchIn) (obs c04WatchObs) {
 		prev := cur
 		cur = st.Set
 		reg.set(st.Set)
+		reg.mu.Lock()
+		reg.skip = 0
+		reg.mu.Unlock()
 		switch st.Kind {
 		case "replace":
+			reg.report(st.Set)
 			reg.notify <- &serviceregistry.RegistryEvent{UseReplace: true, Replace: c04RegMap(st.Set, "svc")}
+			wantListed++
+		case "replaceother":
+			// full replace (first sync / resync of the driver) that contains instances of OTHER services
+			// only: the watched service has no instance any more
+			cur = nil
+			reg.set(nil)
+			reg.report(nil)
+			reg.notify <- &serviceregistry.RegistryEvent{UseReplace: true,
+				Replace: c04RegMap([]c04Inst{{ID: 997, Tags: []string{"blue", "green", "v1"}, W: 1}}, "other")}
 			wantListed++
 		case "apply":
 			ev := &serviceregistry.RegistryEvent{}
@@ -381,10 +410,12 @@ func c04RunWatch(t *testing.T, in c04WatchIn) (obs c04WatchObs) {
 	// middle of the selections.  A marker report (distinguishable list) followed by the real
 	// content again: when the pool shows the real list after the marker, its event queue is empty.
 	reg.set([]c04Inst{{ID: 9999, Tags: []string{"blue", "green", "v1"}, W: 1}})
+	reg.report([]c04Inst{{ID: 9999, Tags: []string{"blue", "green", "v1"}, W: 1}})
 	reg.notify <- &serviceregistry.RegistryEvent{UseReplace: true, Replace: c04RegMap([]c04Inst{{ID: 9999, Tags: []string{"blue"}, W: 1}}, "svc")}
 	wantListed++
 	wait(wantListed)
 	reg.set(cur)
+	reg.report(cur)
 	reg.notify <- &serviceregistry.RegistryEvent{UseReplace: true, Replace: c04RegMap(cur, "svc")}
 	wantListed++
 	settle(wantListed)
@@ -559,10 +590,13 @@ func c04GenWatch(r *vfRand, adv bool) c04WatchIn {
 	}
 	k := r.PickInt(0, 0, 1, 2, 3)
 	if adv {
-		k = r.PickInt(0, 0, 0, 1)
+		k = r.PickInt(0, 0, 1, 1)
 	}
 	for i := 0; i < k; i++ {
-		in.Steps = append(in.Steps, c04WStep{Set: c04GenSet(r, &next, false), Kind: r.PickStr("apply", "apply", "replace", "replace", "other", "silent")})
+		in.Steps = append(in.Steps, c04WStep{Set: c04GenSet(r, &next, false), Kind: r.PickStr("apply", "apply", "replace", "replace", "replaceother", "other", "silent")})
+		if r.Chance(1, 5) { // a full replace / delete that leaves the watched service without instances
+			in.Steps[len(in.Steps)-1] = c04WStep{Set: []c04Inst{}, Kind: r.PickStr("replace", "replaceother", "apply")}
+		}
 	}
 	in.Seed = int64(r.Intn(1 << 30))
 	m := r.Range(1, 6)
